@@ -81,11 +81,18 @@ class _MergeStrategy(Object):  # type: ignore[misc]
     def __handle_update(self) -> Iterator[None]:
         """A context manager to handle the update vs merge."""
         # Pass the update switch to _SchemaNode.
+        previous_update = self.node_class.update
         self.node_class.update = self.update
-        yield
-        # Reset to the merge behavior because _SchemaNode may be used by other instances
-        # that should merge.
-        self.node_class.update = False
+        try:
+            yield
+        finally:
+            # Restore the behavior found on entry, also when an exception is raised:
+            # this is the merge behavior at the outermost level,
+            # because _SchemaNode may be used by other instances that should merge,
+            # and the current behavior when leaving a nested object,
+            # because the properties that come after it shall be handled like
+            # the ones that come before it.
+            self.node_class.update = previous_update
 
     def add_schema(self, schema: StrKeyMapping) -> None:
         with self.__handle_update():
